@@ -131,6 +131,38 @@ def evaluate(h, drv, cases):
     return out
 
 
+ACC_TIE_MAX_CYCLES = 2000000
+ACC_FIELDS = ("status", "exit", "cycles", "maxfetch", "maxload", "maxstore", "oob")
+
+
+def access_log_tie(cases, results):
+    """model side: xcmpdriver `acc|fuel|stdin|files|sexp` -> digest of Isa.runAccesses on the image of the compiler model"""
+    xdrv = C.driver_exe("xcmpdriver")
+    todo = []
+    for k, ((prog, data, files), (ref, acc)) in enumerate(zip(cases, results)):
+        d = parse_acc(acc) if (ref.startswith("ok ") and acc) else None
+        if d and d.get("status") == "ok" and int(d.get("cycles", "0")) <= ACC_TIE_MAX_CYCLES:
+            todo.append((k, d))
+    lines = [f"acc|{int(d['cycles']) + 8}|{cases[k][1].hex() or '-'}|{cases[k][2]}|{G.to_sexp(cases[k][0])}" for k, d in todo]
+    outs = (C.drive_parallel(xdrv, lines) if len(lines) >= 64 else C.drive(xdrv, lines)) if lines else []
+    mism, first, naccess = 0, None, 0
+    for (k, d), o in zip(todo, outs):
+        m = parse_acc(o) or {}
+        real = tuple(d.get(f) for f in ACC_FIELDS)
+        model = tuple(m.get(f) for f in ACC_FIELDS)
+        try:
+            naccess += int(m.get("nfetch", 0)) + int(m.get("nload", 0)) + int(m.get("nstore", 0))
+        except ValueError:
+            pass
+        if real != model:
+            mism += 1
+            if first is None:
+                first = {"source": G.to_source(cases[k][0])[:3000], "stdin_hex": cases[k][1].hex(), "files": cases[k][2],
+                         "fields": list(ACC_FIELDS), "real": list(real), "model": list(model), "model_line": o[:300]}
+    return {"compared_runs": len(todo), "mismatches": mism, "first_mismatch": first, "accesses_logged_by_model": naccess,
+            "fields": list(ACC_FIELDS), "skipped_longer_than_cycles": ACC_TIE_MAX_CYCLES}
+
+
 def shrink(h, drv, prog, data, files, budget_s=60):
     t0 = time.time()
     cur = prog
@@ -229,6 +261,10 @@ def run(tier, seed, replay=None):
         if v:
             bad_cases.append((prog, data, files, ref, acc, v))
 
+    # the access log of the Lean theorems (`Isa.runAccesses`, Lemmas/IsaAccess.lean: C08_access_log / C08_v3_partial) against
+    # the observer: the MODEL compiler's image run by `Isa.step` with the log's digest vs the real binary on the real hexsim
+    acc_tie = access_log_tie(cases, results)
+
     seen = set()
     nrep = 0
     classes = Counter()
@@ -247,6 +283,10 @@ def run(tier, seed, replay=None):
         nrep += 1
     if problems:
         rep.violation("proof", {"broken": problems}, no_input=not bad_cases)
+    if acc_tie["mismatches"]:
+        rep.violation("accesslog", {"broken": "correspondence of the Lean access log (Isa.runAccesses over the compiler model's image) "
+                                              "with the observer on the real binary", "first": acc_tie["first_mismatch"]},
+                      no_input=not bad_cases)
 
     # the static theorems are about the Lean model of the compiler: its tie to the real xcmp (five stages, byte for byte)
     model_corr = C.compiler_model_tie(rep, PID, tier, seed + 1000, bool(bad_cases))
@@ -265,6 +305,7 @@ def run(tier, seed, replay=None):
         "max_stack_words_at_exit": max(spans) if spans else 0,
         "feature_distribution": dict(sorted(feats.items())), "lean": info, "compiler_model_correspondence": model_corr,
         "traces_validated_against_impl": ndef - len(bad_cases),
+        "access_log_correspondence": acc_tie,
     })
     rep.assumptions += ["well-definedness = X.run (lean/HexVerif/X/Sem.lean) defined", "the observer decodes each instruction from the "
                         "architectural state before hexsim executes it (friend hook) and mirrors hexsim's address computation",
